@@ -342,9 +342,7 @@ Definition print_iso_utc (y mo d h mi s : Z) (frac : option (ity * Z * Z)) : out
 (* ------------------------------------------------------------------ Hinnant's algorithms, as written *)
 
 (* days -> (y, m, d): lines 435-446; z = days + 719468 *)
-Definition civil_from_z (z : Z) : Z * Z * Z :=
-  let era := Z.quot (if 0 <=? z then z else z - 146096) 146097 in
-  let doe := z - era * 146097 in
+Definition civil_of_era_doe (era doe : Z) : Z * Z * Z :=
   let yoe := Z.quot (doe - Z.quot doe 1460 + Z.quot doe 36524 - Z.quot doe 146096) 365 in
   let y := yoe + era * 400 in
   let doy := doe - (365 * yoe + Z.quot yoe 4 - Z.quot yoe 100) in
@@ -352,7 +350,21 @@ Definition civil_from_z (z : Z) : Z * Z * Z :=
   let d := doy - Z.quot (153 * mp + 2) 5 + 1 in
   let m := if mp <? 10 then mp + 3 else mp - 9 in
   (y + (if m <=? 2 then 1 else 0), m, d).
+Definition civil_from_z (z : Z) : Z * Z * Z :=
+  let era := Z.quot (if 0 <=? z then z else z - 146096) 146097 in
+  civil_of_era_doe era (z - era * 146097).
 Definition civil_from_days (days : Z) : Z * Z * Z := civil_from_z (days + 719468).
+
+(* era and day of era of days + 719468 without forming the sum: era and day of era of `days` (truncating / and %,
+   corrected for a negative remainder), then 719468 = 4 * 146097 + 135080 added to the day of era; every intermediate
+   value lies within a few eras of days / 146097 *)
+Definition shifted_era_doe (days : Z) : Z * Z :=
+  let e0 := Z.quot days 146097 in
+  let r0 := Z.rem days 146097 in
+  let e1 := if r0 <? 0 then e0 - 1 else e0 in
+  let r1 := if r0 <? 0 then r0 + 146097 else r0 in
+  let s := r1 + 719468 in
+  (e1 + Z.quot s 146097, Z.rem s 146097).
 
 (* (y, m, d) -> era and day of era: lines 475-481 (y is already Year - (Month <= 2)) *)
 Definition era_of_y (y : Z) : Z := Z.quot (if 0 <=? y then y else y - 399) 400.
@@ -378,9 +390,8 @@ Definition tp_print (P : prec) (R : ity) (c : Z) : outcome (list N) :=
   tp0 <- (if oneDay =? 0 then UB UBOverflow else arith (promote (d_rep TP)) (Z.rem wide oneDay)) ;;
   timePart <- (if tp0 <? 0 then r <- arith (promote (d_rep TP)) (tp0 + oneDay) ;; Ok (cast (d_rep TP) r) else Ok tp0) ;;
   timeInSec <- dfloor TP SecT timePart ;;                        (* floor<seconds>(timePart).count() *)
-  let zt := uac R I64 in
-  z <- arith zt (cast zt datePart + cast zt 719468) ;;           (* days + 719468ll *)
-  let '(y, m, d) := civil_from_z z in
+  let '(era, doe) := shifted_era_doe datePart in
+  let '(y, m, d) := civil_of_era_doe era doe in
   let hour := cast I32 (Z.quot timeInSec 3600) in
   let mi := cast I32 (Z.quot (Z.rem timeInSec 3600) 60) in
   let s := cast I32 (Z.rem timeInSec 60) in
@@ -467,14 +478,19 @@ Definition tp_of_parts (P : prec) (R : ity) (u : utc_parts) : outcome Z :=
   let mm := if 2 <? m then cast U32 (m - 3) else cast U32 (m + 9) in
   let doy := cast U32 (cast U32 (cast U32 (cast U32 (153 * mm) + 2) / 5 + d) - 1) in
   let doe := cast U32 (cast U32 (cast U32 (yoe * 365) + yoe / 4) - yoe / 100 + doy) in
-  hi <- cdiv I64 (tmax I64) 146097 ;;
-  lo <- cdiv I64 (tmin I64) 146097 ;;
-  if (hi <? era) || (era <? lo) then Err OutOfRange else
-  off <- arith I32 (cast I32 doe - 719468) ;;                    (* dayInEra *)
-  e1 <- arith I64 (era * 146097) ;;
-  lim <- arith I64 (tmin I64 - off) ;;
-  if (off <? 0) && (e1 <? lim) then Err OutOfRange else
-  days <- arith I64 (e1 + off) ;;
+  (* days = (era - 5) * 146097 + (doe + 11017), one era up when era - 5 is negative *)
+  se <- arith I64 (era - 5) ;;
+  sd <- arith I64 (cast I64 doe + 11017) ;;
+  days <- (if 0 <=? se then
+             lim <- cdiv I64 (tmax I64 - sd) 146097 ;;
+             if lim <? se then Err OutOfRange else
+             pr <- arith I64 (se * 146097) ;; arith I64 (pr + sd)
+           else
+             ue <- arith I64 (se + 1) ;;
+             dd <- arith I64 (sd - 146097) ;;
+             lim <- cdiv I64 (tmin I64 - (if dd <? 0 then dd else 0)) 146097 ;;
+             if ue <? lim then Err OutOfRange else
+             pr <- arith I64 (ue * 146097) ;; arith I64 (pr + dd)) ;;
   h1 <- arith I64 (u_hour u * 3600) ;; m1 <- arith I64 (u_min u * 60) ;;
   t1 <- arith I64 (h1 + m1) ;; time <- arith I64 (t1 + u_sec u) ;;
   if 0 <=? days then
